@@ -11,7 +11,11 @@ from .. import aoef, aoefgen, aoef_impl, leanio
 PROPERTY = "C18"
 LEAN_MODULE = "Proofs.C18"
 _T = "SE.Proofs.C18."
-_THEOREM_NAMES = []
+_THEOREM_NAMES = ["C18_relative_iff", "C18_relative_join", "C18_join_relative", "C18_relocate", "C18_passthrough",
+                  "C18_stored_relative", "C18_every_recording_stored", "C18_outside_fails",
+                  "C18_outside_fails_needs_coherence", "C18_outside_fails_wf", "C18_outside_fails_recordingSet",
+                  "C18_outside_fails_dataset", "C18_inside_succeeds", "parse_parts_ok", "parse_root_ok",
+                  "C18_parse_render"]
 THEOREMS = [_T + n for n in _THEOREM_NAMES]
 LEVEL_TEXT = ("Lean theorems over a model of POSIX pure paths (parse, render, relative_to, join as pathlib computes "
               "them) and of the AOEF recording adapter inside the C01 model: relative_to succeeds exactly for paths "
